@@ -138,10 +138,14 @@ func (p *process) Start() {
 			p.tryRestart(v)
 		}
 	}()
+	// The lifecycle messages come from the engine, they have no sender. Don't
+	// leave the sender of the last user message in the context.
+	p.context.sender = nil
 	p.context.message = Initialized{}
 	applyMiddleware(recv.Receive, p.Opts.Middleware...)(p.context)
 	p.context.engine.BroadcastEvent(ActorInitializedEvent{PID: p.pid, Timestamp: time.Now()})
 
+	p.context.sender = nil
 	p.context.message = Started{}
 	applyMiddleware(recv.Receive, p.Opts.Middleware...)(p.context)
 	p.context.engine.BroadcastEvent(ActorStartedEvent{PID: p.pid, Timestamp: time.Now()})
@@ -201,6 +205,7 @@ func (p *process) tryRestart(v any) {
 // stopReceiver tells the crashed receiver that it is stopped before it gets
 // replaced. When the max restarts are exceeded cleanup does that instead.
 func (p *process) stopReceiver() {
+	p.context.sender = nil
 	p.context.message = Stopped{}
 	applyMiddleware(p.context.receiver.Receive, p.Opts.Middleware...)(p.context)
 }
@@ -225,6 +230,7 @@ func (p *process) cleanup(cancel context.CancelFunc) {
 	p.context.engine.stopping.Store(p.pid.ID, p)
 	defer p.context.engine.stopping.CompareAndDelete(p.pid.ID, p)
 	p.context.engine.Registry.Remove(p.pid)
+	p.context.sender = nil
 	p.context.message = Stopped{}
 	applyMiddleware(p.context.receiver.Receive, p.Opts.Middleware...)(p.context)
 	// Leave the parent only now: a parent that is stopping waits for the children
